@@ -104,3 +104,193 @@ let () =
         { model = m_run k l ops; spec = s_run k l ops;
           dom = kind_wfb k && (l = RowMajor) }
     | _ -> failwith "hist")
+
+(* ---------- write-through of mutable views ---------- *)
+let iota n = List.init n (fun k -> zi k)
+let norm_slices shape spec =
+  let toks = List.filter (fun t -> t <> "") (String.split_on_char ';' spec) in
+  if List.length toks <> List.length shape then failwith "slices" else
+  List.map2 (fun n t ->
+    if t = "rev" then ((Z.sub n (zi 1), zi (-1)), n)
+    else match List.map int_of_string (String.split_on_char ':' t) with
+      | [a; b; st] -> ((zi a, zi st), zi ((b - a + st - 1) / st))
+      | _ -> failwith "slice") shape toks
+let mk_view vk shape arg =
+  match vk with
+  | "ref" -> VRef | "flatten" -> VFlatten
+  | "reshape" -> VReshape (getL arg)
+  | "slice" -> VSlice (norm_slices shape (getS arg))
+  | _ -> failwith "view"
+let diff_str before after =
+  let r = ref [] in
+  List.iteri (fun k (b, a) -> if b <> a then r := (string_of_int k ^ "=" ^ string_of_z a) :: !r) (List.combine before after);
+  String.concat "," (List.rev !r)
+let show_wt vshape changed elems =
+  "ok " ^ show_list vshape ^ " ; changed" ^ (if changed = "" then "" else " " ^ changed) ^ " ; view" ^
+  (if elems = [] then "" else " " ^ String.concat "," elems)
+
+(* the reference: which source cell a view index designates, written with Horner ranks and the
+   nested-loop enumeration only (no strides, no division) *)
+let spec_src_index v s i =
+  match v with
+  | VRef -> i
+  | VFlatten -> List.nth (lex_enum s) (int_of_z (List.hd i))
+  | VReshape d -> List.nth (lex_enum s) (int_of_z (horner Z0 i d))
+  | VSlice axes -> List.map2 (fun x ((st, sp), _) -> Z.add st (Z.mul x sp)) i axes
+let spec_cell l s idx =
+  int_of_z (match l with RowMajor -> horner Z0 idx s | ColMajor -> horner Z0 (List.rev idx) (List.rev s))
+
+let () =
+  register "wt" (fun a -> match a with
+    | vk :: lay :: shp :: arg :: idx :: _ ->
+        let s = getL shp and i = getL idx in
+        let l = if getS lay = "c" then ColMajor else RowMajor in
+        let v = mk_view (getS vk) s arg in
+        let x = zi (-5) in
+        let ok = posb s && view_accepts v s in
+        let vs = view_shape v s in
+        if not ok then { model = "nothing"; spec = "unspecified"; dom = false }
+        else if not (inbb i vs) then { model = "bad-index"; spec = "unspecified"; dom = false }
+        else begin
+          let n = int_of_z (prod s) in
+          let buf = iota n in
+          let buf' = vset v l s buf i x in
+          let m = show_wt vs (diff_str buf buf')
+                    (List.map (fun j -> match vget v l s buf' j with Some y -> string_of_z y | None -> "oob") (lex_enum vs)) in
+          let cell = spec_cell l s (spec_src_index v s i) in
+          let sp = show_wt vs (string_of_int cell ^ "=" ^ string_of_z x)
+                    (List.map (fun j -> if j = i then string_of_z x
+                                        else string_of_int (spec_cell l s (spec_src_index v s j))) (lex_enum vs)) in
+          { model = m; spec = sp; dom = true }
+        end
+    | _ -> failwith "wt")
+
+(* ---------- legacy classes: fixed_ndarray / hybrid_ndarray / dynamic_ndarray ---------- *)
+type 'st mops = { m_init : unit -> 'st; m_shape : 'st -> coq_Z list; m_strides : 'st -> coq_Z list;
+                  m_count : 'st -> string; m_get : 'st -> coq_Z list -> coq_Z option;
+                  m_write : 'st -> coq_Z list -> coq_Z -> 'st; m_resize : 'st -> coq_Z list -> string * 'st }
+
+let lrecord flag shape strides count elems =
+  String.concat "|" [flag; show_list shape; show_list strides; count;
+                     (if shape = [] then "-" else String.concat "," elems)]
+
+let legacy_run ?(none="oob") (m : 'st mops) ops =
+  let dump flag st =
+    lrecord flag (m.m_shape st) (m.m_strides st) (m.m_count st)
+      (List.map (fun i -> match m.m_get st i with Some v -> string_of_z v | None -> none) (lex_enum (m.m_shape st))) in
+  let fill st base =
+    if m.m_shape st = [] then st else
+    snd (List.fold_left (fun (c, s) i -> (c + 1, m.m_write s i (zi (base + c)))) (0, st) (lex_enum (m.m_shape st))) in
+  let st = ref (m.m_init ()) in
+  let out = ref [dump "-" !st] in
+  List.iter (fun o ->
+    let flag = (match o.[0] with
+      | 'r' -> let (f, s) = m.m_resize !st (op_list o) in st := s; f
+      | 'w' -> let (kk, v) = op_write o in
+               (if m.m_shape !st <> [] then match nth_index (m.m_shape !st) kk with Some i -> st := m.m_write !st i v | None -> ()); "-"
+      | 'c' -> "-"
+      | 'a' -> let o0 = m.m_init () in
+               let o1 = (if String.length o > 1 then snd (m.m_resize o0 (op_list o)) else o0) in
+               st := fill o1 100; "-"
+      | 'g' -> st := fill !st 200; "-"
+      | _ -> failwith "op") in
+    out := dump flag !st :: !out) ops;
+  String.concat " ; " (List.rev !out)
+
+let hybrid_ops mx dm : coq_Z hstate mops =
+  { m_init = (fun () -> h_init Z0 (ni mx) (ni dm)); m_shape = (fun s -> s.h_shape); m_strides = (fun s -> s.h_strides);
+    m_count = (fun _ -> "-"); m_get = h_get; m_write = h_write;
+    m_resize = (fun s z -> let (f, s') = h_resize s z in ((if f then "T" else "F"), s')) }
+let dynamic_ops : coq_Z dstate mops =
+  { m_init = (fun () -> d_init); m_shape = (fun s -> s.d_shape); m_strides = (fun s -> s.d_strides);
+    m_count = (fun s -> string_of_int (List.length s.d_data)); m_get = d_get; m_write = d_write;
+    m_resize = (fun s z -> ("T", d_resize Z0 s z)) }
+let generic_ops k : coq_Z state mops =
+  { m_init = (fun () -> init Z0 k RowMajor); m_shape = (fun s -> s.st_shape); m_strides = (fun s -> s.st_strides);
+    m_count = (fun s -> string_of_int (List.length s.st_data)); m_get = get; m_write = write;
+    m_resize = (fun s z -> let (f, s') = resize Z0 s z in ((if f then "T" else "F"), s')) }
+(* the reference: abstract array of the corresponding kind *)
+let spec_ops k shape0 count : coq_Z astate mops =
+  { m_init = (fun () -> { a_kind = k; a_layout = RowMajor; a_shape = shape0; a_cells = [] });
+    m_shape = (fun s -> s.a_shape); m_strides = (fun s -> spec_strides RowMajor s.a_shape);
+    m_count = (fun s -> if count then string_of_z (prod s.a_shape) else "-");
+    m_get = a_get; m_write = a_write;
+    m_resize = (fun s z -> let (f, s') = a_resize s z in ((if f then "T" else "F"), s')) }
+(* cells the property does not fix print as '?' *)
+let spec_run m ops = legacy_run ~none:"?" m ops
+
+let () =
+  register "lhist" (fun a -> match a with
+    | kd :: rest ->
+        let ks = getS kd in
+        let ops = (match rest with [o] -> parse_ops (getS o) | _ -> []) in
+        let starts p = String.length ks >= String.length p && String.sub ks 0 (String.length p) = p in
+        let tail p = String.sub ks (String.length p) (String.length ks - String.length p) in
+        if starts "hybrid" then begin
+          match List.map int_of_string (String.split_on_char 'x' (tail "hybrid")) with
+          | [mx; dm] ->
+              let k = { sk = SFixedDim (ni dm); bk = BBounded (ni mx) } in
+              { model = legacy_run (hybrid_ops mx dm) ops;
+                spec = spec_run (spec_ops k (zi mx :: List.init (dm - 1) (fun _ -> zi 1)) false) ops; dom = true }
+          | _ -> failwith "hybrid"
+        end else if starts "fixed" then begin
+          let c = ints_x (tail "fixed") in
+          let k = { sk = SConstant c; bk = BFixed (ni (int_of_z (prod c))) } in
+          { model = legacy_run (generic_ops k) ops; spec = spec_run (spec_ops k c true) ops; dom = true }
+        end else if ks = "dynamic" then begin
+          let k = { sk = SDynamic; bk = BDynamic } in
+          (* every history prints the default-constructed object first, where shape () has product 1
+             but the object holds no element (finding dynamic-default-ctor): never in the theorem's domain *)
+          { model = legacy_run dynamic_ops ops; spec = spec_run (spec_ops k [] true) ops; dom = false }
+        end else failwith "legacy class"
+    | _ -> failwith "lhist")
+
+(* ---------- casts: values are carried in quarters (v4 = 4*value) so that 7k-4.25 is exact ---------- *)
+let quarters_str v4 =
+  let n = int_of_z v4 in
+  let a = abs n in
+  let frac = (match a mod 4 with 0 -> "" | 1 -> ".25" | 2 -> ".5" | _ -> ".75") in
+  (if n < 0 then "-" else "") ^ string_of_int (a / 4) ^ frac
+let z4 = zi 4
+let conv_of dt = match dt with
+  | "same" | "double" | "float" -> (fun v -> v)
+  | "long" | "int8" -> (fun v -> Z.mul z4 (Z.quot v z4))          (* static_cast<integer>: truncation toward zero *)
+  | _ -> failwith "dtype"
+let kind_of_tag tag s =
+  let n = ni (int_of_z (prod s)) and d = ni (List.length s) in
+  match tag with
+  | "fixed" -> { sk = SConstant s; bk = BFixed n }
+  | "hybrid" -> { sk = SFixedDim d; bk = BBounded n }
+  | "dynamic" -> { sk = SDynamic; bk = BDynamic }
+  | _ ->
+    let sk = (match String.sub tag 8 2 with
+      | "cs" -> SConstant s | "fs" -> SFixedDim d | "hs" -> SBounded d | "ds" -> SDynamic | "ls" -> SClipped s
+      | _ -> failwith "tag") in
+    let bk = (match String.sub tag 11 2 with
+      | "fb" -> BFixed n | "hb" -> BBounded n | "db" -> BDynamic | _ -> failwith "tag") in
+    { sk; bk }
+let cast_case src_kind s tag dt =
+  let vals = List.mapi (fun k _ -> zi (4 * (7 * k) - 17)) (lex_enum s) in
+  let src0 = init Z0 src_kind RowMajor in
+  let src1 = (match src_kind.sk with SConstant _ -> src0 | _ -> snd (resize Z0 src0 s)) in
+  let src = snd (List.fold_left (fun (c, st) i -> (c + 1, write st i (List.nth vals c))) (0, src1) (lex_enum s)) in
+  let k' = kind_of_tag tag s in
+  let conv = conv_of dt in
+  let m = (match cast Z0 (fun v -> v) src k' with
+    | None -> "refused"
+    | Some r -> (match cast Z0 conv r k' with
+        | None -> "refused"
+        | Some r2 -> "ok " ^ show_list r2.st_shape ^ " ; " ^
+            String.concat "," (List.map (fun i -> match get r2 i with Some v -> quarters_str v | None -> "oob") (lex_enum r2.st_shape)))) in
+  let sp = "ok " ^ show_list s ^ " ; " ^ String.concat "," (List.map (fun v -> quarters_str (conv v)) vals) in
+  { model = m; spec = sp; dom = posb s && kind_wfb k' }
+
+let () =
+  register "castk" (fun a -> match a with
+    | [raw; tag; dt] ->
+        let s = ints_x (let r = getS raw in String.sub r 1 (String.length r - 1)) in
+        cast_case { sk = SConstant s; bk = BFixed (ni (int_of_z (prod s))) } s (getS tag) (getS dt)
+    | _ -> failwith "castk");
+  register "castd" (fun a -> match a with
+    | [shp; tag; dt] -> cast_case { sk = SDynamic; bk = BDynamic } (getL shp) (getS tag) (getS dt)
+    | _ -> failwith "castd")
